@@ -12,6 +12,7 @@ structure Verdict where
   model  : String                 -- what the Lean model produces for this case
   oracle : Option String := none  -- `some detail` = the property's oracle rejects the implementation output
   prop   : String := ""           -- property the oracle belongs to (default: the family's)
+  more   : List (String × String) := []   -- further oracle failures (property id, detail) on the implementation output
 
 abbrev Handler := List String → String → Verdict
 
